@@ -119,6 +119,35 @@ theorem scale_count_former_witness :
     (encodeTensor witnessCfg [0, 3, 8]).toOption.map (fun out => (out.ranges.flatMap Range.scaleCh).count 3) = some 1 := by
   decide +kernel
 
+/-- What a stripe is handed: for every depth slice `[off, off+len)` of the request and every active core,
+    the table holds a range keyed `(core, off)` whose scale section has one record per channel of the
+    slice the core owns — the clause the harness applies to every NPU operation of a compiled network
+    (`StripeCoverOk`, with the stripe's own channel range). -/
+theorem stripe_cover (c : Cfg) (offsets : List Nat) (out : Out)
+    (hv : ValidReq (reqOf c offsets)) (hbl : c.biases.length = c.fullDepth) (hsl : c.scales.length = c.fullDepth)
+    (h : encodeTensor c offsets = .ok out) :
+    ∀ s ∈ slices offsets, StripeCoverOk c.ncores c.fullDepth (artefactOf c out).ranges (artefactOf c out).ranges
+      s.2.1 (s.2.1 + s.2.2) := by
+  have hf := encodeTensor_facts c offsets out h
+  have hv' := hv
+  obtain ⟨hn, hb, _, _, _, hs⟩ := hv
+  have hart : artefactOf c out = rawArtefactOf c out := by
+    unfold artefactOf rawArtefactOf; rw [ranges_eq_raw c offsets out hs hf]
+  rw [hart]
+  intro s hs' core hcore
+  simp only [List.mem_range] at hcore
+  have he : (⟨s.1, core, s.2.1, s.2.2⟩ : Expect) ∈ expected (reqOf c offsets) :=
+    (mem_expected_iff _ _).2 ⟨hs', hcore⟩
+  obtain ⟨r, hr, hm⟩ := (made_expected c offsets out hb hf).exists_right _ he
+  obtain ⟨_, hle⟩ := slice_facts _ hv' _ hs'
+  have hcore' : core < c.ncores := by omega
+  have hg := hf.good.rng r hr
+  obtain ⟨_, h2, _, _⟩ := made_scale c _ _ _ _ r out.stream hm hg (by rw [hbl, hsl]) hn hcore' (by rw [hbl]; exact hle)
+  have hmem : toARange r ∈ (rawArtefactOf c out).ranges := List.mem_map_of_mem hr
+  refine ⟨⟨toARange r, hmem, hm.hcore, hm.hdepth⟩, ⟨toARange r, hmem, hm.hcore, hm.hdepth, ?_⟩⟩
+  rw [Nat.add_sub_cancel_left]
+  exact h2
+
 /-! ## 4. weight sections and the partition of the channels -/
 
 /-- The weight section of every (core, slice) is the encoder's answer for exactly the channels of the
